@@ -44,11 +44,40 @@ fn check_seq(prop: &'static str, tier: Tier) -> CheckOutcome {
     let mut mach: Option<String> = None;
     let mut distinct_outcomes = 0u64;
     let mut socket_validated = 0u64;
+    let mut crosscheck: Vec<Value> = vec![];
     for cfg in &cfgs {
         let tree_depth = if tier == Tier::Quick { 2 } else { 3 };
         let rep = if prop == "C19" { pair::explore_pair(cfg, nthreads()) } else { seq::explore_seq(cfg, nthreads(), tree_depth) };
         // binding: spanning-tree histories replayed byte-for-byte through a real TCP server
         let (bound_n, bound_bad, bound_err) = if prop == "C19" { (0, vec![], None) } else { seq::bind_to_socket(cfg, &rep.tree, nthreads()) };
+        // thorough: the canonicalisation argument is checked, not assumed - the same configuration
+        // is explored with exact (un-normalised) fingerprints and with normalised ones at a common
+        // depth; the sets of violated signatures (owned and foreign) must be equal
+        if tier == Tier::Thorough && prop != "C19" {
+            let common = cfg.depth.saturating_sub(2).max(3);
+            let mut a = cfg.clone();
+            a.depth = common;
+            let mut b = a.clone();
+            b.normalise = false;
+            let ra = seq::explore_seq(&a, nthreads(), 0);
+            let rb = seq::explore_seq(&b, nthreads(), 0);
+            let sigs = |r: &seq::SeqReport| -> std::collections::BTreeSet<String> {
+                r.found.iter().map(|f| f.signature.clone()).chain(r.foreign_examples.keys().cloned()).collect()
+            };
+            let (sa, sb) = (sigs(&ra), sigs(&rb));
+            crosscheck.push(json!({
+                "config": cfg.name, "depth": common,
+                "states_normalised": ra.states, "states_exact": rb.states,
+                "signatures_normalised": sa.len(), "signatures_exact": sb.len(), "equal": sa == sb,
+                "capped": ra.capped.is_some() || rb.capped.is_some(),
+            }));
+            if sa != sb && ra.capped.is_none() && rb.capped.is_none() {
+                mach = Some(format!(
+                    "{}: exact and normalised fingerprints disagree at depth {}: only-normalised {:?} only-exact {:?}",
+                    cfg.name, common, sa.difference(&sb).collect::<Vec<_>>(), sb.difference(&sa).collect::<Vec<_>>()
+                ));
+            }
+        }
         socket_validated += bound_n;
         if let Some(e) = bound_err {
             mach = Some(format!("{} (socket binding): {}", cfg.name, e));
@@ -121,6 +150,7 @@ fn check_seq(prop: &'static str, tier: Tier) -> CheckOutcome {
         "transitions": transitions,
         "traces_validated_against_impl": executions,
         "histories_replayed_through_real_tcp_server": socket_validated,
+        "exact_vs_normalised_fingerprint_crosscheck": crosscheck,
         "samples": samples,
         "exhaustive": exhaustive,
         "distinct_outcomes": distinct_outcomes,
